@@ -270,8 +270,7 @@ class C15(Check):
                 sig0 = sig
             elif sig != sig0:
                 return 'violation', dict(det, expected={'first spelling': sig0}, observed=sig)
-            if rho is not None and sig != rho:
-                return 'violation', dict(det, expected={'rho of the desugared formula': rho}, observed=sig)
+            # (what the signal must BE is C01's subject: a monitor that evaluates every spelling alike, rightly or wrongly, respects the syntax equivalences)
         return 'ok', None
 
     def nontrivial(self, c):
